@@ -140,6 +140,28 @@ theorem phase_tables_agree_other (n : String) (h : KeywordFree n) :
   simp only [kwB, kwNB] at *
   simp [refIdx, cvtRefIdx, opIds, flexMap, durPair, *]
 
+/-- **The statement on canonical names.** A device slice whose name ends in the blank-led keyword `i`
+(0 = DmaI, 1 = Cmpt Prep, 2 = Cmpt Exec, 3 = DmaO) and contains no other phase keyword leaves the two stages with
+`dur = (TS(i+2) − TS(i+1)) / f` and its end at the host-recorded end. -/
+theorem statement_canonical (i : Nat) (hi : i < 4) (hc : Canonical e.name i)
+    (hph : e.ph = "X") (htsx : e.tsx = some [c1, c2, c3, c4, c5]) (h : both f e = .ok o) :
+    o.dur = ((nth5 c1 c2 c3 c4 c5 (i + 1) - nth5 c1 c2 c3 c4 c5 i : Int) : Rat) / f ∧
+      o.ts + o.dur = e.ts + e.dur := by
+  obtain ⟨_, _, hop, _, hpair⟩ := phase_tables_agree e.name i hi hc
+  obtain ⟨hd, he⟩ := both_dev hph htsx h
+  rw [hpair] at hd
+  exact ⟨hd, he (Or.inl (by rw [hop]; simp))⟩
+
+/-- **The statement on any other device event** (no phase keyword in the name): `dur = (TS5 − TS1) / f`, end at
+the host-recorded end. -/
+theorem statement_other (hc : KeywordFree e.name)
+    (hph : e.ph = "X") (htsx : e.tsx = some [c1, c2, c3, c4, c5]) (h : both f e = .ok o) :
+    o.dur = ((c5 - c1 : Int) : Rat) / f ∧ o.ts + o.dur = e.ts + e.dur := by
+  obtain ⟨_, hcvt, _, _, hpair⟩ := phase_tables_agree_other e.name hc
+  obtain ⟨hd, he⟩ := both_dev hph htsx h
+  rw [hpair] at hd
+  exact ⟨by simpa [nth5] using hd, he (Or.inr hcvt)⟩
+
 /-- **The asserts do not fire** (for every name): with a positive frequency, non-decreasing counters and a host
 end that leaves room for the whole device interval (`(TS5−TS1)/f ≤ ts+dur`, i.e. every projected start is
 non-negative) both stages return. -/
